@@ -21,7 +21,10 @@ func (g *c08gen) tail(e types.MalType, depth int) types.MalType {
 		return e
 	}
 	inner := g.tail(e, depth-1)
-	switch g.r.Intn(9) {
+	switch g.r.Intn(10) {
+	case 9:
+		g.hist["if-without-else"]++
+		return Call("if", true, inner)
 	case 0:
 		g.hist["do"]++
 		return Call("do", 1, inner)
@@ -98,7 +101,7 @@ func (g *c08gen) loop(m, nest int) (defs []types.MalType, entry string) {
 
 func runC08(tier string, seed uint64, rep *Report) {
 	rep.Rule = "loop shapes: 1..3 mutually recursive functions whose recursive call sits in a random nesting (<=3 quick, <=5 thorough) of tail " +
-		"contexts do/let(single and multi-form body)/if/cond/and/or/fn-body, with parameter lists [n], [n & more] (called with one or three arguments) and [n acc]; each shape is run for n in {0,1,2,10,120} and returns the number of " +
+		"contexts do/let(single and multi-form body)/if (two-armed, then or else branch, and one-armed)/cond/and/or/fn-body, with parameter lists [n], [n & more] (called with one or three arguments) and [n acc]; each shape is run for n in {0,1,2,10,120} and returns the number of " +
 		"lisp.EVAL frames on the Go stack at the base case (harness builtin depth!, runtime.Callers). The model predicts the same numbers. " +
 		"Direct oracle: depth at n=120 equals depth at n=10 and n=2."
 	g := &c08gen{r: NewRng(seed), hist: map[string]int{}}
